@@ -109,6 +109,13 @@ P.update({
           'explicit TLA+ transcription of the parser, exhaustive TLC enumeration, oracle evaluation of recorded executions'),
 })
 
+P.update({
+  'C19': (True, 'Schemas.tla',
+          'Schemas.tla holds the first-match rule over ordered sections (unusable sections transparent), the retention grammar (seconds-per-point and points with unit suffixes s m h d w y, a duration divided by the precision) and the defaults; TLC proves Transparent and FirstWins over every small section list x match vector; generated storage-schemas.conf / storage-aggregation.conf files (every order for small files, overlapping patterns, missing keys, every unit, multi-archive) are loaded through the writer\'s own reload functions, a probe metric is stored in the real cache, the real writeCachedDataPoints() runs against an in-memory database plugin, and TLC compares every recorded create(metric, retentions, xFilesFactor, method) with the specification.',
+          'regex matching restricted to a literal grammar (value oracle); durations kept below 2^31 seconds for TLC; the backend double accepts every archive list',
+          'explicit TLA+ specification of the configuration semantics, TLC enumeration of the first-match rule, oracle evaluation of recorded create() calls of the real writer'),
+})
+
 PENDING_REASON = 'check not built yet in this round (planned per DESIGN.md section 5); not claimed until its TLA+ model and conformance harness exist'
 
 
